@@ -220,6 +220,9 @@ type RunOpts struct {
 
 // RunBytecode runs bc on a fresh (or given) VM and returns the canonical outcome.
 // Panics escaping Run are recovered and reported as Kind "panic".
+// Unabortable counts runs that had to be abandoned (see RunBytecode).
+var Unabortable atomic.Int64
+
 func RunBytecode(bc *ugo.Bytecode, ro RunOpts) (out Outcome) {
 	vm := ro.VM
 	if vm == nil {
@@ -258,15 +261,33 @@ func RunBytecode(bc *ugo.Bytecode, ro RunOpts) (out Outcome) {
 	}()
 	var val ugo.Object
 	var err error
-	func() {
+	var panicMsg string
+	finished := make(chan struct{})
+	go func() {
+		defer close(finished)
 		defer func() {
 			if r := recover(); r != nil {
-				out.Kind = "panic"
-				out.ErrMsg = CutGoStack(fmt.Sprint(r))
+				panicMsg = CutGoStack(fmt.Sprint(r))
 			}
 		}()
 		val, err = vm.Run(ro.Globals, ro.Args...)
 	}()
+	// the run is given the watchdog period plus 15 s of repeated Aborts; a run that still has not returned is stuck in
+	// code Abort cannot reach (a native loop): its goroutine is abandoned and the outcome says so
+	select {
+	case <-finished:
+	case <-time.After(timeout + 15*time.Second):
+		close(done)
+		Timeouts.Add(1)
+		Unabortable.Add(1)
+		out.Kind = "unabortable"
+		out.ErrMsg = "the run neither returned nor reacted to Abort"
+		return out
+	}
+	if panicMsg != "" {
+		out.Kind = "panic"
+		out.ErrMsg = panicMsg
+	}
 	close(done)
 	out.Out = buf.String()
 	if ro.Globals != nil {
